@@ -210,3 +210,15 @@ def c15_arg_all_nan_line(rec, params):
     na = lambda v: v[0] in ('nan', 'none', 'nat')
     lines = [c['vals'] for c in f['cols']] if cs['axis'] == 0 else [[c['vals'][i] for c in f['cols']] for i in range(len(f['index']))]
     return any(line and all(na(v) for v in line) for line in lines)
+
+
+@classifier
+def astype_boolean_key(rec, params):
+    cs = (rec.get('case') or {}).get('cs') or {}
+    act = rec.get('actual') or {}
+    if cs.get('op') != 'f_astype' or act.get('k') != 'err':
+        return False
+    k = cs.get('ck') or []
+    if k and k[0] == 'iloc':
+        k = k[1]
+    return bool(k) and k[0] in ('mask', 'bseries')
